@@ -13,6 +13,7 @@ import ChessVerif.DriverExtra
 import ChessVerif.DriverSearch
 import ChessVerif.Spec.Mate
 import ChessVerif.Lemmas.OKDec
+import ChessVerif.Lemmas.SanRound
 open Chess
 
 -- PRNG -------------------------------------------------------------------------------------------
@@ -54,8 +55,9 @@ def modelState (T : ZTable) (p : Position) : String :=
   "|rep=" ++ b2s (isRepeated p) ++ "|three=" ++ b2s (threefold p) ++ "|r50=" ++ b2s (rule50 p) ++
   "|mat=" ++ b2s (enoughMaterial p) ++ "|draw=" ++ b2s (isDraw p) ++
   "|poly=" ++ hex16 (polyKey p) ++ "|hist=" ++ toString p.history.length ++
-  -- the standing hypotheses of the C03/C04 theorems (Ranges, UndoOK of every generated move) evaluated here:
-  "|sync=" ++ (if hypothesesHold p then "ok" else "hypotheses-fail")
+  -- the standing hypotheses of the C03/C04 theorems (Ranges, UndoOK of every generated move) and of the C17 round-trip
+  -- theorem (genShapeB: no duplicate moves, well-shaped codes) evaluated here:
+  "|sync=" ++ (if hypothesesHold p then (if genShapeB p then "ok" else "genshape-fail") else "hypotheses-fail")
 
 structure SState where
   cur : Spec.SPos
